@@ -70,6 +70,7 @@ def hist_jobs(prop, tier, cfg="san"):
         for e in (0, 1):
             depth = {"quick": {1: 3, 2: 3, 3: 3, 4: 3}, "thorough": {1: 5, 2: 4, 3: 4, 4: 4}}[tier][d]
             jobs.append(Job("histmc", cfg=cfg, defs=["-DHM_D=%d" % d, "-DHM_ELEM=%d" % e], args=["--tier=" + tier, "--prop=" + prop, "--depth=%d" % depth]))
+    jobs.append(Job("zeromc", cfg=cfg, args=["--tier=" + tier, "--prop=" + prop]))   # dimensionality 0
     return jobs
 
 
